@@ -88,6 +88,22 @@ Lemma clone_evs_app s1 : forall n1 s2 n2, length n1 = length s1 ->
   clone_evs (s1 ++ s2) (n1 ++ n2) = clone_evs s1 n1 ++ clone_evs s2 n2.
 Proof. induction s1 as [|a sr IH]; intros [|b nr] s2 n2 H; simpl in *; try lia; auto. rewrite IH by lia. reflexivity. Qed.
 
+(** the window test looks at the local part and at the NUMBER of cells only: stores keep it *)
+Definition win_range (d : dst) (a n : nat) : Prop := forall i, a <= i < a + n -> in_window d i = true.
+Lemma in_window_same d d' i : d_l d' = d_l d -> length (d_slots d') = length (d_slots d) -> in_window d' i = in_window d i.
+Proof. intros H1 H2. unfold in_window. rewrite H1, H2. reflexivity. Qed.
+Lemma win_range_same d d' a n : d_l d' = d_l d -> length (d_slots d') = length (d_slots d) -> win_range d a n -> win_range d' a n.
+Proof. intros H1 H2 H i Hi. rewrite (in_window_same d d' i H1 H2). exact (H i Hi). Qed.
+Lemma win_range_tail d a n : win_range d a (S n) -> win_range d (S a) n.
+Proof. intros H i Hi. apply H. lia. Qed.
+
+(** the head run of a granted request starts at the local index; its tail run at cell 0 *)
+Lemma win_head ix0 ca0 sl pubs evs nid out c : c <= ca0 -> win_range (mkD (mkL ix0 ca0) sl pubs evs nid out) ix0 c.
+Proof. intros H i Hi. replace i with (ix0 + (i - ix0)) by lia. apply window_ahead. lia. Qed.
+Lemma win_tail ix0 ca0 sl pubs evs nid out t : t <= ix0 -> ix0 <= length sl -> length sl - ix0 + t <= ca0 ->
+  win_range (mkD (mkL ix0 ca0) sl pubs evs nid out) 0 t.
+Proof. intros H1 H2 H3 i Hi. apply window_wrapped; lia. Qed.
+
 Section Loops.
 Variable E : denv.
 Local Notation srcl := (dn_src E).
@@ -100,29 +116,37 @@ Definition clone_body (m : smode) (src dst_ : sl) (j : nat) : DM unit :=
 Ltac dmm := unfold dbind, dret, rd, st, emit, store_mode, clone_, is_buf, set_slots_d, set_out_d, sl_at; cbn [s_reg s_off s_len d_l d_slots d_pubs d_evs d_nid d_out].
 
 (** bitwise copy, caller's slice -> buffer *)
-Lemma copy_loop_src_buf so o N1 N2 n : forall j d, so + j + n <= length srcl -> o + j + n <= length (d_slots d) ->
+Lemma copy_loop_src_buf so o N1 N2 n : forall j d, so + j + n <= length srcl -> o + j + n <= length (d_slots d) -> win_range d (o + j) n ->
   for_n n j (copy_body (mkSl RSrc so N1) (mkSl RBuf o N2)) d =
   Some (tt, set_slots_d (write (d_slots d) (o + j) (sub srcl (so + j) n)) d).
 Proof.
-  induction n as [|n IH]; intros j d H1 H2.
+  induction n as [|n IH]; intros j d H1 H2 HW.
   - simpl. unfold dret, set_slots_d. destruct d; reflexivity.
   - cbn [for_n]. unfold dbind at 1. unfold copy_body at 1. dmm.
     rewrite (ltb_true (so + j) (length srcl)) by lia. rewrite (ltb_true (o + j) (length (d_slots d))) by lia.
-    rewrite IH by (cbn [d_slots]; rewrite ?upd_length; lia). cbn [d_slots d_l d_pubs d_evs d_nid d_out].
+    rewrite (HW (o + j)) by lia. cbn [andb].
+    rewrite IH by (first [ cbn [d_slots]; rewrite ?upd_length; lia
+                         | replace (o + S j) with (S (o + j)) by lia; apply win_range_tail;
+                           apply (win_range_same d); [reflexivity | cbn [d_slots]; apply upd_length | exact HW] ]).
+    cbn [d_slots d_l d_pubs d_evs d_nid d_out].
     rewrite sub_cons_nth' by lia. cbn [write]. unfold set_slots_d. cbn.
     replace (so + S j) with (S (so + j)) by lia. replace (o + S j) with (S (o + j)) by lia. reflexivity.
 Qed.
 
 (** bitwise copy, buffer -> caller's destination *)
-Lemma copy_loop_buf_out o oo N1 N2 n : forall j d, o + j + n <= length (d_slots d) -> oo + j + n <= length (d_out d) ->
+Lemma copy_loop_buf_out o oo N1 N2 n : forall j d, o + j + n <= length (d_slots d) -> oo + j + n <= length (d_out d) -> win_range d (o + j) n ->
   for_n n j (copy_body (mkSl RBuf o N1) (mkSl RDst oo N2)) d =
   Some (tt, set_out_d (write (d_out d) (oo + j) (sub (d_slots d) (o + j) n)) d).
 Proof.
-  induction n as [|n IH]; intros j d H1 H2.
+  induction n as [|n IH]; intros j d H1 H2 HW.
   - simpl. unfold dret, set_out_d. destruct d; reflexivity.
   - cbn [for_n]. unfold dbind at 1. unfold copy_body at 1. dmm.
-    rewrite (ltb_true (o + j) (length (d_slots d))) by lia. rewrite (ltb_true (oo + j) (length (d_out d))) by lia.
-    rewrite IH by (cbn [d_slots d_out]; rewrite ?upd_length; lia). cbn [d_slots d_l d_pubs d_evs d_nid d_out].
+    rewrite (ltb_true (o + j) (length (d_slots d))) by lia. rewrite (HW (o + j)) by lia. cbn [andb d_out d_slots d_l d_pubs d_evs d_nid].
+    rewrite (ltb_true (oo + j) (length (d_out d))) by lia.
+    rewrite IH by (first [ cbn [d_slots d_out]; rewrite ?upd_length; lia
+                         | replace (o + S j) with (S (o + j)) by lia; apply win_range_tail;
+                           apply (win_range_same d); [reflexivity | reflexivity | exact HW] ]).
+    cbn [d_slots d_l d_pubs d_evs d_nid d_out].
     rewrite sub_cons_nth' by lia. cbn [write]. unfold set_out_d. cbn.
     replace (o + S j) with (S (o + j)) by lia. replace (oo + S j) with (S (oo + j)) by lia. reflexivity.
 Qed.
@@ -131,18 +155,24 @@ Qed.
 Definition cloned_vals (nid0 : N) (srcs : list cell) : list cell := if dn_owned E then ids nid0 (length srcs) else srcs.
 Definition cloned_nid (nid0 : N) (n : nat) : N := if dn_owned E then (nid0 + N.of_nat n)%N else nid0.
 
-Lemma clone_loop_src_buf m so o N1 N2 n : forall j d, so + j + n <= length srcl -> o + j + n <= length (d_slots d) ->
+Lemma clone_loop_src_buf m so o N1 N2 n : forall j d, so + j + n <= length srcl -> o + j + n <= length (d_slots d) -> win_range d (o + j) n ->
   for_n n j (clone_body m (mkSl RSrc so N1) (mkSl RBuf o N2)) d =
   Some (tt, mkD (d_l d) (write (d_slots d) (o + j) (cloned_vals (d_nid d) (sub srcl (so + j) n))) (d_pubs d)
                 (d_evs d ++ (if dn_owned E then loop_evs m (sub srcl (so + j) n) (ids (d_nid d) n) (sub (d_slots d) (o + j) n) else []))
                 (cloned_nid (d_nid d) n) (d_out d)).
 Proof.
   unfold cloned_vals, cloned_nid.
-  induction n as [|n IH]; intros j d H1 H2.
+  induction n as [|n IH]; intros j d H1 H2 HW.
   - simpl. unfold dret. destruct d. cbn. destruct (dn_owned E); cbn; rewrite ?app_nil_r, ?N.add_0_r; reflexivity.
   - cbn [for_n]. unfold dbind at 1. unfold clone_body at 1.
-    repeat (progress (dmm; rewrite ?(ltb_true (so + j) (length srcl)) by lia; rewrite ?(ltb_true (o + j) (length (d_slots d))) by lia)).
-    rewrite IH by (cbn [d_slots]; rewrite ?upd_length; lia). cbn [d_slots d_l d_pubs d_evs d_nid d_out].
+    assert (HWj : forall l sl pubs evs nid out, l = d_l d -> length sl = length (d_slots d) -> in_window (mkD l sl pubs evs nid out) (o + j) = true).
+    { intros l sl pubs evs nid out Hl Hs. rewrite (in_window_same d _ (o + j)) by (cbn [d_l d_slots]; assumption). apply HW. lia. }
+    repeat (progress (dmm; rewrite ?(ltb_true (so + j) (length srcl)) by lia; rewrite ?(ltb_true (o + j) (length (d_slots d))) by lia;
+                      rewrite ?HWj by reflexivity; rewrite ?(HW (o + j)) by lia; cbn [andb])).
+    rewrite IH by (first [ cbn [d_slots]; rewrite ?upd_length; lia
+                         | replace (o + S j) with (S (o + j)) by lia; apply win_range_tail;
+                           apply (win_range_same d); [reflexivity | cbn [d_slots]; apply upd_length | exact HW] ]).
+    cbn [d_slots d_l d_pubs d_evs d_nid d_out].
     rewrite !(sub_cons_nth' srcl) by lia. rewrite (sub_cons_nth' (d_slots d)) by lia.
     rewrite sub_upd_after' by lia.
     replace (so + S j) with (S (so + j)) by lia. replace (o + S j) with (S (o + j)) by lia.
@@ -155,7 +185,7 @@ Proof.
 Qed.
 
 (** clone, buffer -> caller's destination (what is dropped in the destination is the caller's) *)
-Lemma clone_loop_buf_out m o oo N1 N2 n : forall j d, o + j + n <= length (d_slots d) -> oo + j + n <= length (d_out d) ->
+Lemma clone_loop_buf_out m o oo N1 N2 n : forall j d, o + j + n <= length (d_slots d) -> oo + j + n <= length (d_out d) -> win_range d (o + j) n ->
   for_n n j (clone_body m (mkSl RBuf o N1) (mkSl RDst oo N2)) d =
   Some (tt, mkD (d_l d) (d_slots d) (d_pubs d)
                 (d_evs d ++ (if dn_owned E then clone_evs (sub (d_slots d) (o + j) n) (ids (d_nid d) n) else []))
@@ -163,11 +193,15 @@ Lemma clone_loop_buf_out m o oo N1 N2 n : forall j d, o + j + n <= length (d_slo
                 (write (d_out d) (oo + j) (cloned_vals (d_nid d) (sub (d_slots d) (o + j) n)))).
 Proof.
   unfold cloned_vals, cloned_nid.
-  induction n as [|n IH]; intros j d H1 H2.
+  induction n as [|n IH]; intros j d H1 H2 HW.
   - simpl. unfold dret. destruct d. cbn. destruct (dn_owned E); cbn; rewrite ?app_nil_r, ?N.add_0_r; reflexivity.
   - cbn [for_n]. unfold dbind at 1. unfold clone_body at 1.
-    repeat (progress (dmm; rewrite ?(ltb_true (o + j) (length (d_slots d))) by lia; rewrite ?(ltb_true (oo + j) (length (d_out d))) by lia)).
-    rewrite IH by (cbn [d_slots d_out]; rewrite ?upd_length; lia). cbn [d_slots d_l d_pubs d_evs d_nid d_out].
+    repeat (progress (dmm; rewrite ?(ltb_true (o + j) (length (d_slots d))) by lia; rewrite ?(ltb_true (oo + j) (length (d_out d))) by lia;
+                      rewrite ?(HW (o + j)) by lia; cbn [andb])).
+    rewrite IH by (first [ cbn [d_slots d_out]; rewrite ?upd_length; lia
+                         | replace (o + S j) with (S (o + j)) by lia; apply win_range_tail;
+                           apply (win_range_same d); [reflexivity | reflexivity | exact HW] ]).
+    cbn [d_slots d_l d_pubs d_evs d_nid d_out].
     rewrite !(sub_cons_nth' (d_slots d)) by lia.
     replace (o + S j) with (S (o + j)) by lia. replace (oo + S j) with (S (oo + j)) by lia.
     cbn [length]; rewrite ?sub_length by lia.
@@ -202,7 +236,7 @@ Definition run_effect (E : denv) (m : smode) (o so c : nat) (d : dst) : dst :=
       (cloned_nid E (d_nid d) c) (d_out d).
 
 Definition store_spec (E : denv) (m : smode) (f : sl -> sl -> DM unit) : Prop :=
-  forall o so c d, so + c <= length (dn_src E) -> o + c <= length (d_slots d) ->
+  forall o so c d, so + c <= length (dn_src E) -> o + c <= length (d_slots d) -> win_range d o c ->
     f (mkSl RBuf o c) (mkSl RSrc so c) d = Some (tt, run_effect E m o so c d).
 
 Lemma wr_fields s i vs : its (wr s i vs) = its s /\ mlen (wr s i vs) = mlen s /\ nid (wr s i vs) = nid s /\ owned (wr s i vs) = owned s.
@@ -242,7 +276,7 @@ Proof.
       unfold Seq.ret in G0. destruct G0 as (Ag & Ho & Hr). destruct r0 as [[a b]|]; [contradiction|].
       rewrite (agrees_is_view _ _ _ _ Ag Ho). unfold dbind, dret.
       eexists _, _. split; [reflexivity|]. unfold Seq.ret. split; [|split]; [constructor; cbn; auto | reflexivity | exact I]. }
-  specialize (Hn eq_refl).
+  specialize (Hn eq_refl). pose proof (check_grants _ _ _ _ Ck) as Hg.
   unfold Seq.rd in *. destruct (chunk (mlen s1) (ix (it_of P s1)) n) as [h t] eqn:Ch. unfold Seq.ret in G0.
   destruct G0 as (Ag & Ho & Hr). destruct r0 as [[a b]|]; [|contradiction].
   rewrite B in Ch. rewrite Ch in Hr. cbn [fst snd] in Hr. destruct Hr as (Ha & Hb & _ & _ & Hba & Hbb & Hsum). subst a b.
@@ -263,7 +297,7 @@ Proof.
   destruct (h =? n) eqn:Hh; [apply Nat.eqb_eq in Hh | apply Nat.eqb_neq in Hh].
   - (* one contiguous run *)
     assert (t = 0) by lia. subst t. subst h.
-    unfold dbind at 1. unfold view. rewrite (Hf (ix (it_of P s1)) 0 n) by (cbn [dn_src denv_of d_slots]; rewrite ?A; lia).
+    unfold dbind at 1. unfold view. rewrite (Hf (ix (it_of P s1)) 0 n) by (first [cbn [dn_src denv_of d_slots]; rewrite ?A; lia | apply win_head; exact Hg]).
     unfold dret at 1. cbv iota beta. unfold run_effect. cbn [d_l d_slots d_pubs d_evs d_nid d_out dn_src denv_of].
     unfold dbind. cbn [dn_E denv_of]. rewrite ?A, ?Nd.
     rewrite (lift_advance P n s s1) by (first [exact Hwf1 | lia | symmetry; exact He]).
@@ -300,9 +334,13 @@ Proof.
     assert (Hh' : h <= n) by lia.
     unfold sl_prefix, sl_suffix. cbn [s_len s_reg s_off]. rewrite (leb_true h n Hh').
     unfold view, dbind, dret.
-    rewrite (Hf (ix (it_of P s1)) 0 h) by (cbn [dn_src denv_of d_slots]; rewrite ?A; lia).
+    assert (Hhl : h = mlen s - ix (it_of P s1)).
+    { unfold chunk in Ch. destruct Hwf1 as [W1 _ _ _ _]. rewrite B in W1. revert Ch. cases; intros Ch; inversion Ch; subst; unfold it_of in *; cbn [tget] in *; lia. }
+    assert (Hsl : length (slots s) = mlen s) by (destruct Hwf as [_ _ W3 _ _]; exact W3).
+    rewrite (Hf (ix (it_of P s1)) 0 h) by (first [cbn [dn_src denv_of d_slots]; rewrite ?A; lia | apply win_head; lia]).
     cbv iota beta. replace (n - h) with t by lia. cbn [Nat.add].
-    rewrite (Hf 0 h t) by (unfold run_effect; cbn [dn_src denv_of d_slots]; rewrite ?write_length, ?A; lia).
+    rewrite (Hf 0 h t) by (first [ unfold run_effect; cbn [dn_src denv_of d_slots]; rewrite ?write_length, ?A; lia
+                                 | unfold run_effect; cbn [d_l d_slots]; apply win_tail; rewrite ?write_length, ?A; destruct Hwf1 as [W1 _ _ _ _]; lia ]).
     cbv iota beta. unfold run_effect. cbn [d_l d_slots d_pubs d_evs d_nid d_out dn_src dn_E denv_of]. rewrite ?A, ?Nd.
     rewrite (lift_advance P n s s1) by (first [exact Hwf1 | lia | symmetry; exact He]).
     cbv iota beta.
@@ -360,21 +398,21 @@ Qed.
 Lemma spec_copy m (f : sl -> sl -> DM unit) : dn_owned E = false ->
   (forall a b d, f a b d = (v <~ copy_from_slice_unchecked E b a ;; dret tt) d) -> store_spec E m f.
 Proof.
-  intros Hpl Hf o so c d H1 H2. rewrite Hf. rewrite pass_on_unit. unfold copy_from_slice_unchecked. cbn [s_len].
+  intros Hpl Hf o so c d H1 H2 HW. rewrite Hf. rewrite pass_on_unit. unfold copy_from_slice_unchecked. cbn [s_len].
   rewrite Nat.leb_refl.
   change (fun j : nat => v <~ rd E (sl_at (mkSl RSrc so c) j);; st (sl_at (mkSl RBuf o c) j) v) with (copy_body E (mkSl RSrc so c) (mkSl RBuf o c)).
-  rewrite copy_loop_src_buf by lia. rewrite run_effect_plain by exact Hpl. rewrite !Nat.add_0_r. reflexivity.
+  rewrite copy_loop_src_buf by (first [lia | rewrite Nat.add_0_r; exact HW]). rewrite run_effect_plain by exact Hpl. rewrite !Nat.add_0_r. reflexivity.
 Qed.
 
 (** [binding.clone_from_slice(slice)] *)
 Lemma spec_clone (f : sl -> sl -> DM unit) :
   (forall a b d, f a b d = (v <~ clone_from_slice E a b ;; dret tt) d) -> store_spec E SAssign f.
 Proof.
-  intros Hf o so c d H1 H2. rewrite Hf. rewrite pass_on_unit. unfold clone_from_slice. cbn [s_len].
+  intros Hf o so c d H1 H2 HW. rewrite Hf. rewrite pass_on_unit. unfold clone_from_slice. cbn [s_len].
   rewrite Nat.eqb_refl.
   change (fun j : nat => v <~ rd E (sl_at (mkSl RSrc so c) j);; c0 <~ clone_ E v;; assign E (sl_at (mkSl RBuf o c) j) c0)
     with (clone_body E SAssign (mkSl RSrc so c) (mkSl RBuf o c)).
-  rewrite clone_loop_src_buf by lia. unfold run_effect. rewrite !Nat.add_0_r. reflexivity.
+  rewrite clone_loop_src_buf by (first [lia | rewrite Nat.add_0_r; exact HW]). unfold run_effect. rewrite !Nat.add_0_r. reflexivity.
 Qed.
 
 (** a loop [for (x, y) in binding.iter_mut().zip(slice) { body }] whose body is, place by place, the canonical one *)
@@ -383,9 +421,9 @@ Lemma spec_zip m (f : sl -> sl -> DM unit) (body : loc -> loc -> DM unit) :
   (forall x y d, body (LBuf x) (LSrc y) d = (v <~ rd E (LSrc y) ;; c <~ clone_ E v ;; store_mode E m (LBuf x) c) d) ->
   store_spec E m f.
 Proof.
-  intros Hf Hb o so c d H1 H2. rewrite Hf. rewrite seq_unit. unfold for_zip. cbn [s_len]. rewrite Nat.min_id.
+  intros Hf Hb o so c d H1 H2 HW. rewrite Hf. rewrite seq_unit. unfold for_zip. cbn [s_len]. rewrite Nat.min_id.
   rewrite (for_n_ext c 0 _ (clone_body E m (mkSl RSrc so c) (mkSl RBuf o c))).
-  - rewrite clone_loop_src_buf by lia. unfold run_effect. rewrite !Nat.add_0_r. reflexivity.
+  - rewrite clone_loop_src_buf by (first [lia | rewrite Nat.add_0_r; exact HW]). unfold run_effect. rewrite !Nat.add_0_r. reflexivity.
   - intros j' d'. unfold sl_at. cbn [s_reg s_off]. rewrite Hb. reflexivity.
 Qed.
 End Closures.
@@ -404,18 +442,17 @@ Ltac via_generic m cl :=
   end.
 
 Ltac body_tac :=
-  intros x y d; unfold check_zeroed, write_, assign, store_mode, st, emit, clone_, dbind, dret, is_buf, set_slots_d, rd;
+  let Hx := fresh "Hx" in let Hy := fresh "Hy" in let Hw := fresh "Hw" in let Z := fresh "Z" in
+  intros x y d; unfold check_zeroed, write_, assign, store_mode, st, emit, clone_, dbind, dret, is_buf, set_slots_d, rd, in_window;
   cbn [d_l d_slots d_pubs d_evs d_nid d_out dn_src dn_owned denv_of];
-  destruct (x <? length (d_slots d)) eqn:?; destruct (y <? length vs) eqn:?; try reflexivity;
-  cbn [d_l d_slots d_pubs d_evs d_nid d_out];
-  repeat match goal with |- context[if ?a <? ?b then _ else _] => match goal with H : (a <? b) = _ |- _ => rewrite H end end;
-  cbn [d_l d_slots d_pubs d_evs d_nid d_out];
-  try reflexivity;
-  destruct (isz (nth x (d_slots d) 0%N)) eqn:Z; cbn [negb d_l d_slots d_pubs d_evs d_nid d_out];
-  repeat match goal with |- context[if ?a <? ?b then _ else _] => match goal with H : (a <? b) = _ |- _ => rewrite H end end;
-  cbn [d_l d_slots d_pubs d_evs d_nid d_out]; unfold store_ev; rewrite ?Z;
-  repeat (progress (repeat match goal with |- context[if ?a <? ?b then _ else _] => match goal with H : (a <? b) = _ |- _ => rewrite H end end;
-                    cbn [d_l d_slots d_pubs d_evs d_nid d_out]));
+  destruct (x <? length (d_slots d)) eqn:Hx; destruct (y <? length vs) eqn:Hy;
+  (* the window test of the cell: the same boolean wherever it is asked (stores keep the local part and the number of cells) *)
+  match goal with |- context[?c <? l_cached (d_l d)] => destruct (c <? l_cached (d_l d)) eqn:Hw end;
+  cbn [andb d_l d_slots d_pubs d_evs d_nid d_out]; try reflexivity;
+  repeat (progress (rewrite ?upd_length, ?Hx, ?Hy, ?Hw; cbn [andb d_l d_slots d_pubs d_evs d_nid d_out])); try reflexivity;
+  destruct (isz (nth x (d_slots d) 0%N)) eqn:Z; cbn [negb andb d_l d_slots d_pubs d_evs d_nid d_out];
+  unfold store_ev; rewrite ?Z;
+  repeat (progress (rewrite ?upd_length, ?Hx, ?Hy, ?Hw, ?Z; cbn [negb andb d_l d_slots d_pubs d_evs d_nid d_out]));
   try reflexivity.
 
 Theorem tie_push_slice : owned s = false ->
@@ -483,7 +520,7 @@ Definition xrun_effect (E : denv) (o oo c : nat) (d : dst) : dst :=
       (write (d_out d) oo (cloned_vals E (d_nid d) (sub (d_slots d) o c))).
 
 Definition extract_spec (E : denv) (f : sl -> sl -> DM unit) : Prop :=
-  forall o oo c d, o + c <= length (d_slots d) -> oo + c <= length (d_out d) ->
+  forall o oo c d, o + c <= length (d_slots d) -> oo + c <= length (d_out d) -> win_range d o c ->
     f (mkSl RBuf o c) (mkSl RDst oo c) d = Some (tt, xrun_effect E o oo c d).
 
 Section ExtractSlice.
@@ -514,7 +551,7 @@ Proof.
   2:{ unfold Seq.ret in G0. destruct G0 as (Ag & Ho & Hr). destruct r0 as [[a b]|]; [contradiction|].
       rewrite (agrees_is_view _ _ _ _ Ag Ho). unfold dbind, dret.
       eexists _, _. split; [reflexivity|]. unfold Seq.ret. split; [constructor; cbn; auto | reflexivity]. }
-  specialize (Hn eq_refl).
+  specialize (Hn eq_refl). pose proof (check_grants _ _ _ _ Ck) as Hg.
   unfold Seq.rd in *. destruct (chunk (mlen s1) (ix (it_of C s1)) n) as [h t] eqn:Ch. unfold Seq.ret in G0.
   destruct G0 as (Ag & Ho & Hr). destruct r0 as [[a b]|]; [|contradiction].
   rewrite B in Ch. rewrite Ch in Hr. cbn [fst snd] in Hr. destruct Hr as (Ha & Hb & _ & _ & Hba & Hbb & Hsum). subst a b.
@@ -538,7 +575,7 @@ Proof.
   unfold view, dbind, dret.
   destruct (h =? n) eqn:Hh; [apply Nat.eqb_eq in Hh | apply Nat.eqb_neq in Hh].
   - assert (t = 0) by lia. subst t. subst h.
-    rewrite (Hf (ix (it_of C s1)) 0 n) by (cbn [d_slots d_out]; rewrite ?A; lia).
+    rewrite (Hf (ix (it_of C s1)) 0 n) by (first [cbn [d_slots d_out]; rewrite ?A; lia | apply win_head; exact Hg]).
     cbv iota beta. unfold xrun_effect. cbn [d_l d_slots d_pubs d_evs d_nid d_out dn_E denv_of]. rewrite ?A, ?Nd.
     rewrite (lift_advance C n s s1) by (first [exact Hwf1 | lia | symmetry; exact He]).
     cbv iota beta.
@@ -557,9 +594,13 @@ Proof.
       unfold cloned_vals. destruct (dn_owned E); rewrite ?ids_length, ?sub_length by lia; try rewrite sub_length by lia; reflexivity.
   - assert (Hh' : h <= n) by lia.
     unfold sl_prefix, sl_suffix. cbn [s_len s_reg s_off]. rewrite (leb_true h n Hh'). unfold dret.
-    rewrite (Hf (ix (it_of C s1)) 0 h) by (cbn [d_slots d_out]; rewrite ?A; lia).
+    assert (Hhl : h = mlen s - ix (it_of C s1) /\ t <= ix (it_of C s1)).
+    { unfold chunk in Ch. destruct Hwf1 as [W1 _ _ _ _]. rewrite B in W1. revert Ch. cases; intros Ch; inversion Ch; subst; unfold it_of in *; cbn [tget] in *; lia. }
+    assert (Hsl : length (slots s) = mlen s) by (destruct Hwf as [_ _ W3 _ _]; exact W3).
+    rewrite (Hf (ix (it_of C s1)) 0 h) by (first [cbn [d_slots d_out]; rewrite ?A; lia | apply win_head; lia]).
     cbv iota beta. replace (n - h) with t by lia. cbn [Nat.add].
-    rewrite (Hf 0 h t) by (unfold xrun_effect; cbn [d_slots d_out]; rewrite ?write_length, ?A; lia).
+    rewrite (Hf 0 h t) by (first [ unfold xrun_effect; cbn [d_slots d_out]; rewrite ?write_length, ?A; lia
+                                 | unfold xrun_effect; cbn [d_l d_slots]; apply win_tail; rewrite ?A; destruct Hwf1 as [W1 _ _ _ _]; lia ]).
     cbv iota beta. unfold xrun_effect. cbn [d_l d_slots d_pubs d_evs d_nid d_out dn_E denv_of]. rewrite ?A, ?Nd.
     rewrite (lift_advance C n s s1) by (first [exact Hwf1 | lia | symmetry; exact He]).
     cbv iota beta.
@@ -597,20 +638,20 @@ Variable E : denv.
 Lemma xspec_copy (f : sl -> sl -> DM unit) : dn_owned E = false ->
   (forall a b d, f a b d = (v <~ copy_from_slice_unchecked E a b ;; dret tt) d) -> extract_spec E f.
 Proof.
-  intros Hpl Hf o oo c d H1 H2. rewrite Hf. rewrite pass_on_unit. unfold copy_from_slice_unchecked. cbn [s_len].
+  intros Hpl Hf o oo c d H1 H2 HW. rewrite Hf. rewrite pass_on_unit. unfold copy_from_slice_unchecked. cbn [s_len].
   rewrite Nat.leb_refl.
   change (fun j : nat => v <~ rd E (sl_at (mkSl RBuf o c) j);; st (sl_at (mkSl RDst oo c) j) v) with (copy_body E (mkSl RBuf o c) (mkSl RDst oo c)).
-  rewrite copy_loop_buf_out by lia. unfold xrun_effect, cloned_vals, cloned_nid, set_out_d. rewrite Hpl, app_nil_r, !Nat.add_0_r. reflexivity.
+  rewrite copy_loop_buf_out by (first [lia | rewrite Nat.add_0_r; exact HW]). unfold xrun_effect, cloned_vals, cloned_nid, set_out_d. rewrite Hpl, app_nil_r, !Nat.add_0_r. reflexivity.
 Qed.
 
 Lemma xspec_clone (f : sl -> sl -> DM unit) :
   (forall a b d, f a b d = (v <~ clone_from_slice E b a ;; dret tt) d) -> extract_spec E f.
 Proof.
-  intros Hf o oo c d H1 H2. rewrite Hf. rewrite pass_on_unit. unfold clone_from_slice. cbn [s_len].
+  intros Hf o oo c d H1 H2 HW. rewrite Hf. rewrite pass_on_unit. unfold clone_from_slice. cbn [s_len].
   rewrite Nat.eqb_refl.
   change (fun j : nat => v <~ rd E (sl_at (mkSl RBuf o c) j);; c0 <~ clone_ E v;; assign E (sl_at (mkSl RDst oo c) j) c0)
     with (clone_body E SAssign (mkSl RBuf o c) (mkSl RDst oo c)).
-  rewrite clone_loop_buf_out by lia. unfold xrun_effect. rewrite !Nat.add_0_r. reflexivity.
+  rewrite clone_loop_buf_out by (first [lia | rewrite Nat.add_0_r; exact HW]). unfold xrun_effect. rewrite !Nat.add_0_r. reflexivity.
 Qed.
 End ExtractClosures.
 
